@@ -25,6 +25,7 @@ EXPLANATION = (
 EXPLANATION += ' Added after the seeded-change rounds: ' + 'D7: wait loops on segment-table entries re-read the table pointer in every iteration (no snapshot from before the loop); D8: the exception cleanup of internal_loop_construct touches an element through the unchecked subscript only where its segment entry was seen allocated, and a block zero-fill count is 1 or derived from segment_size().'
 EXPLANATION += ' Added in the third session (round-3 seeds and the findings they led to): ' + 'D8 also: the growth path indexes a segment only after excluding the allocation-failure tag for that very value; D9: after a failed call nothing it was responsible for stays pending - the exception cleanup tags the missing segments of the abandoned range, every wait for the long table consults the allocation-failed flag.'
 EXPLANATION += ' Added later in the fourth round: ' + "D5 also: capacity() is the size of the allocated prefix (ascending scan advancing only past entries found above the failure tag); the iterator's cached pointer is stepped only inside one segment (++ tests the new index, -- the old one); a table entry is read only with an index known to be below number_of_segments.  D9 also: every exceptional exit of internal_grow / internal_loop_construct (allocation failures included) is covered by an epilogue that tags the owed segments; a wait for a first-block entry leaves when table[0] holds the failure tag; the waiting path of grow_to_at_least ends in an exception over a tagged segment.  D4/D8 are decided over exit_coverage and the clean-up closure (handlers and the helpers they call)."
+EXPLANATION += ' Added in the fifth seeding round: ' + 'D2 also: before the embedded segment pointers are copied into the long table the function waits for every embedded segment that holds an index below start_index - the wait loop condition is evaluated for every start_index up to the embedded capacity (a finite domain), with segment_base / segment_index_of evaluated from their own bodies; waited segments must equal the segments whose first index is below start_index.'
 ASSUMPTIONS = ['instantiations: concurrent_vector<int>, <string> (explicit instantiation + member templates used by the driver)']
 ND = ['disjointness/tiling of claimed ranges over all interleavings', 'segment_index_of bijection beyond the witnesses',
       'grow_to_at_least waiting for elements that another thread is still constructing (does not hold on the waiting path; no completion state exists to anchor a rule on)']
@@ -50,6 +51,7 @@ def run(facts, rep):
     d8_cleanup_access(facts, rep)
     d8_growth_access_checks_the_tag(facts, rep)
     d9_failure_visibility(facts, rep)
+    d2_long_table_waits_for_every_earlier_segment(facts, rep)
 
 
 def d8_growth_access_checks_the_tag(facts, rep):
@@ -871,3 +873,76 @@ def d5_iterator_cache_and_table_bounds(facts, rep):
 def vars_of(fn, call_nodes):
     from engine.rules import vars_initialised_from
     return vars_initialised_from(fn, call_nodes)
+
+
+def d2_long_table_waits_for_every_earlier_segment(facts, rep):
+    """The first thread that needs a segment beyond the embedded table copies the embedded pointers into a long table.  Growers
+    that reserved LOWER indices may still be about to publish their segment pointers into the embedded table (first block,
+    or a segment that straddles start_index); a pointer copied while still null is lost - the owner then stores into a table
+    nobody reads, and readers of those indices wait for ever or see no elements.  So before the copy the function waits for
+    every embedded segment that holds an index below start_index.  The wait loop's bound is index arithmetic over a tiny
+    domain (the embedded table has pointers_per_embedded_table entries): the loop condition is EVALUATED for every start_index
+    up to the embedded capacity, with segment_base / segment_index_of taken from their own bodies, and the set of waited
+    segments must equal the set of embedded segments whose first index is below start_index."""
+    from rules.common import ipeval
+    n = 0
+    for fn in facts.get(CV + 'allocate_long_table'):
+        waits = []
+        for pos, s, node, d in calls_named(fn, ('spin_wait_while_eq',)):
+            a0 = fn.n(fn.strip(node['a'][0])) if node.get('a') else {}
+            if a0.get('k') == 'index':
+                iv = fn.n(fn.strip(a0['idx']))
+                if iv.get('k') == 'var':
+                    waits.append((pos, node, iv['v']))
+        if not waits:
+            raise AnalysisBroken('%s: the wait for the embedded segment pointers was not found' % fn.q)
+        ints = [p for p in fn.d.get('params', []) if 'long' in p['ty'] or 'int' in p['ty'] and '*' not in p['ty']]
+        ints = [p for p in ints if '*' not in p['ty'] and '&' not in p['ty']]
+        if len(ints) != 1:
+            raise AnalysisBroken('%s: start index parameter not identified' % fn.q)
+        start_v = ints[0]['v']
+        # constants of this instantiation: the segment_table base class this vector calls into, and its embedded-table size
+        # (the last template argument of segment_table<T, Allocator, Derived, PointersPerEmbeddedTable>)
+        import re
+        callee_classes = set((fn.callee(s_) or {}).get('q', '').rsplit('::', 1)[0] for _, s_, _, _ in calls(fn))
+        base_fns = [g_ for g_ in facts.fns.values() if g_.p == ST + 'segment_base' and g_.q.rsplit('::', 1)[0] in callee_classes]
+        P = None
+        if base_fns:
+            m = re.search(r',\s*(\d+)>$', base_fns[0].q.rsplit('::', 1)[0])
+            P = int(m.group(1)) if m else None
+        if P is None or not base_fns:
+            raise AnalysisBroken('%s: pointers_per_embedded_table / segment_base not found (P=%s)' % (fn.q, P))
+        g = base_fns[0]
+        gret = [nd for pos, s, nd in g.stmt_elems(('return',))]
+        gp = g.d['params'][0]['v']
+
+        def seg_base(k):
+            return ipeval(facts, g, gret[0]['sub'], {gp: k})
+        cap = seg_base(P)
+        for pos, node, iv in waits:
+            conds = [blk['term']['c'] for b, blk in fn.blocks.items() if blk.get('term') and blk['term'].get('k') in ('ForStmt', 'WhileStmt', 'DoStmt')
+                     and 'c' in blk['term'] and any(fn.nodes[x].get('k') == 'var' and fn.nodes[x].get('v') == iv for x in fn.subtree(blk['term']['c']))]
+            if len(conds) != 1:
+                raise AnalysisBroken('%s: loop condition of the wait loop not identified' % fn.q)
+            bad = []
+            for start in range(1, cap + 1):
+                waited = []
+                i = 0
+                while i < 64:
+                    v = ipeval(facts, fn, conds[0], {iv: i, start_v: start})
+                    if v is None:
+                        raise AnalysisBroken('%s: the wait loop condition is not evaluable (start_index=%d, i=%d)' % (fn.q, start, i))
+                    if not v:
+                        break
+                    waited.append(i)
+                    i += 1
+                need = [k for k in range(P) if seg_base(k) < start]
+                if waited != need:
+                    bad.append('start_index=%d: waits for segments %s, segments holding earlier indices are %s' % (start, waited, need))
+            n += 1
+            rep.ob('D2', 'K14', fn, 'the long-table copy waits for every embedded segment that holds an index below start_index '
+                   '(evaluated for start_index = 1..%d, %d embedded segments)' % (cap, P), not bad,
+                   '; '.join(bad[:3]) + ': a segment pointer that an earlier grower has not published yet is copied as null into the long table - '
+                   'the elements of that segment are lost (readers wait for ever / at() throws)', ln=node.get('ln'), key_extra='long-table-wait')
+    if n < 1:
+        raise AnalysisBroken('concurrent_vector::allocate_long_table not instantiated')
